@@ -1,10 +1,13 @@
 #!/bin/bash
-# Build the registry simulation (C19) test binary from /repo's current working tree.
+# Build the registry simulation (C19) test binary from the repository's current working tree
+# (/repo, or $VERIF_REPO for a scratch checkout with a seeded change).
 set -e
 export GOFLAGS=-mod=mod GOPROXY=off GOSUMDB=off GOTOOLCHAIN=local
 V="$(cd "$(dirname "$0")" && pwd)"
+R="${VERIF_REPO:-/repo}"
 mkdir -p "$V/.build"
-python3 "$V/tools/mkoverlay19.py" "$V/.build/overlay19" >/dev/null
+VERIF_REPO="$R" python3 "$V/tools/mkoverlay19.py" "$V/.build/overlay19" >/dev/null
 cd "$V/registrysim"
-cp /repo/go.sum go.sum
-/opt/veriftools/go1.26.8/bin/go test -c -vet=off -overlay "$V/.build/overlay19/overlay.json" -o "$V/.build/registry.test" .
+sed "s|=> /repo|=> $R|" go.mod > "$V/.build/registry.mod"
+cp "$R/go.sum" "$V/.build/registry.sum"
+/opt/veriftools/go1.26.8/bin/go test -modfile="$V/.build/registry.mod" -c -vet=off -overlay "$V/.build/overlay19/overlay.json" -o "$V/.build/registry.test" .
